@@ -7,8 +7,8 @@ import registry
 TEXT = {
  'C02': ('PARTIAL. Deductive proof (Verus) of the status / trailers / metadata hand-off at both ends on the real code: EncodeBody::poll_frame + EncodeState::trailers (server: every handler outcome becomes exactly one trailers block that is written(status); client: never trailers), Streaming::poll_next + StreamingInner::response (buffered complete messages are yielded before the trailers status; a non-OK grpc-status in the trailers is yielded exactly once as read(trailers)), Status::{add_header,to_header_map,from_header_map} with the round-trip lemma, Request/Response/metadata conversion. The async call-shape glue and the HTTP/2 transport between the ends are NOT covered.',
          'Assumed: http/bytes shims, codec contracts, percent/base64 axioms. See evidence not_covered for the uncovered glue.'),
- 'C16': ('Deductive proof (Verus) on the real tonic-web call.rs server side: encode_trailers writes one name:value CRLF row per trailer entry in iteration order (induction over the fold); make_trailers_frame lays out [0x80][be32 len][block]; poll_encode turns each inner frame into exactly its grpc-web image (DATA unchanged or base64, trailers as one 0x80 frame) and never emits HTTP trailers; the base64 request path (decode_chunk / poll_decode) decodes the largest multiple-of-four prefix, carries the rest, loses nothing under ANY chunking (ghost history) and ends cleanly only with nothing left over.',
-         'Partial: base64 codec assumed; encode_trailers is under contract through an assumed HeaderMap::iter / Iterator::fold model; service.rs classification not yet covered.'),
+ 'C16': ('Deductive proof (Verus) on the real tonic-web call.rs server side: encode_trailers writes one name:value CRLF row per trailer entry in iteration order (induction over the fold); make_trailers_frame lays out [0x80][be32 len][block]; poll_encode turns each inner frame into exactly its grpc-web image (DATA unchanged or base64, trailers as one 0x80 frame) and never emits HTTP trailers; the base64 request path (decode_chunk / poll_decode) decodes the largest multiple-of-four prefix, carries the rest, loses nothing under ANY chunking (ghost history) and ends cleanly only with nothing left over. service.rs: is_grpc_web == exactly the four grpc-web content types, Encoding::from_header, RequestKind::new, GrpcWebService::call (grpc-web POST reaches the inner service exactly once with request line/extensions/other headers kept, content-type application/grpc, te trailers, body behind the decoding adapter; grpc-web non-POST gives 405 and other HTTP/1 gives 400 without touching the service; other HTTP/2 passes through untouched), coerce_request / coerce_response, Case::immediate and ResponseFuture::poll (response re-labelled for the Accept flavour, body behind the encoding adapter).',
+         'Partial: base64 codec assumed; encode_trailers is under contract through an assumed HeaderMap::iter / Iterator::fold model; tonic Body erasure is an uninterpreted function; CORS / layer wiring not covered.'),
  'C17': ('Deductive proof (Verus) on the real find_trailers (result == an independent recursive frame walk of the buffer), trailers_frame_len, and the client response-decoding loop of GrpcWebCall::poll_frame: for ANY chunking (ghost history of the inner body) the bytes handed out are exactly the complete message frames buffered, nothing is lost or duplicated (conservation: received == consumed trailers frames ++ data ++ still buffered), the trailers frame is decoded only when complete, a clean end / the trailers are produced only after the inner body ended with nothing left over (so truncation is an error), and the inner body is never polled after its end.',
          'Partial: the header-block parser decode_trailers_frame is outside reach (assumed); poll_decode binary path assumed. Two genuine defects found here were repaired by fix: commits.'),
  'C14': ('Deductive proof (Verus) of the real Reconnect::{poll_ready,call} and ResponseFuture::poll as a state machine, inductive over ANY history of connector/connection outcomes (loop invariant, no bound): Reconnect implements tower\'s ready/call contract (call never reaches its panic), a connect failure is returned at once only by an eager never-connected channel and otherwise parked with the state reset to Idle (so the next poll_ready starts a fresh connect), a parked error is handed to exactly one call and cleared.',
